@@ -3,16 +3,32 @@ package main
 import (
 	"verifharness/kit/driver"
 	"verifharness/props/c01"
+	"verifharness/props/c02"
 	"verifharness/props/c04"
 	"verifharness/props/c07"
 	"verifharness/props/c24"
 	"verifharness/props/c28"
+	"verifharness/props/c29"
+	"verifharness/props/c30"
+	"verifharness/props/c31"
+	"verifharness/props/c32"
+	"verifharness/props/c33"
+	"verifharness/props/c34"
+	"verifharness/props/c35"
 )
 
 var checks = map[string]driver.Check{
 	"C01": {Level: "fault_enumeration", Fn: c01.Run},
+	"C02": {Level: "exploration", Fn: c02.Run},
 	"C04": {Level: "exploration", Fn: c04.Run},
 	"C07": {Level: "fault_enumeration", Fn: c07.Run},
 	"C24": {Level: "exploration", Fn: c24.Run},
 	"C28": {Level: "exploration", Fn: c28.Run},
+	"C35": {Level: "exploration", Fn: c35.Run},
+	"C31": {Level: "exploration", Fn: c31.Run},
+	"C32": {Level: "exploration", Fn: c32.Run},
+	"C33": {Level: "exploration", Fn: c33.Run},
+	"C34": {Level: "exploration", Fn: c34.Run},
+	"C30": {Level: "exploration", Fn: c30.Run},
+	"C29": {Level: "exploration", Fn: c29.Run},
 }
